@@ -270,10 +270,13 @@ func (r *registryState) touchHealth() {
 	r.mu.Unlock()
 }
 
+// lastRoundClean (asked after stopFaults, when no further lookup can fail): the configuration the monitor handed
+// over last was built without a failed lookup, and the round in flight - whose text may reach the table loop at
+// any moment, in polling mode or after a blocking query timed out - has not had one either.
 func (r *registryState) lastRoundClean() bool {
 	r.mu.Lock()
 	defer r.mu.Unlock()
-	return r.roundClean
+	return r.roundClean && !r.failSinceServe
 }
 
 // checksLocked renders the health checks of the whole registry in the order /v1/health/state/any lists them.
